@@ -14,7 +14,6 @@ import (
 	"runtime/debug"
 	"sort"
 	"strings"
-	"sync"
 	"sync/atomic"
 	"time"
 
@@ -63,8 +62,8 @@ type Task struct {
 	Harness bool
 	Ctx     interface{}
 
-	goid     uint64
-	wake     chan bool
+	goid uint64
+	taskSync
 	state    int
 	point    string
 	ready    func() bool
@@ -97,6 +96,18 @@ type walModel struct {
 	rotatorGone bool
 }
 
+// small association lists instead of maps: Go maps carry race-detector hooks
+// inside the runtime, which would flag the harness's own (serialised) accesses
+// from different task goroutines in edge-free race builds.
+type walEntry struct {
+	key string
+	m   *walModel
+}
+type verEntry struct {
+	ctx interface{}
+	m   *verModel
+}
+
 type verModel struct {
 	chanLen    int
 	chanClosed bool
@@ -104,16 +115,14 @@ type verModel struct {
 
 // Sim is one generation ("process lifetime") of simulated execution.
 type Sim struct {
-	mu     sync.Mutex
-	mmu    sync.Mutex // guards the wals/verifs maps and Points
-	byGoid map[uint64]*Task
-	All    []*Task
-	events chan event
+	syncState
+	All []*Task
 
-	running     *Task
-	expectAdopt int
-	adoptCtx    interface{}
-	last        *Task
+	running  *Task
+	spawned  int // adoptions announced (written by the running task / Go)
+	adopted  int // adoptions completed (written by the engine)
+	adoptCtx interface{}
+	last     *Task
 
 	Tape     *tape.Tape
 	Steps    int
@@ -123,8 +132,8 @@ type Sim struct {
 	// still runnable (0 => uniform choice).
 	StickNum, StickDen int
 
-	wals   map[string]*walModel
-	verifs map[interface{}]*verModel
+	wals   []walEntry
+	verifs []verEntry
 
 	// Sig is a hash of (task, point) at every decision that had more than one
 	// runnable task; Contended counts those decisions.
@@ -190,15 +199,13 @@ func goid() uint64 {
 // New creates a generation and installs it as the current one.
 func New(tp *tape.Tape) *Sim {
 	s := &Sim{
-		byGoid:       map[uint64]*Task{},
-		events:       make(chan event, 64),
+		All:          make([]*Task, 0, 512),
 		Tape:         tp,
 		MaxSteps:     20000,
-		wals:         map[string]*walModel{},
-		verifs:       map[interface{}]*verModel{},
 		Points:       map[string]int{},
 		WatchdogSecs: 20,
 	}
+	s.initSync()
 	cur.Store(s)
 	return s
 }
@@ -214,33 +221,43 @@ func (s *Sim) walFor(t *Task, key string) *walModel {
 }
 
 func (s *Sim) wal(key string) *walModel {
-	s.mmu.Lock()
-	defer s.mmu.Unlock()
-	m := s.wals[key]
-	if m == nil {
-		m = &walModel{}
-		s.wals[key] = m
+	s.mlock()
+	defer s.munlock()
+	for i := len(s.wals) - 1; i >= 0; i-- {
+		if s.wals[i].key == key {
+			return s.wals[i].m
+		}
 	}
+	m := &walModel{}
+	s.wals = append(s.wals, walEntry{key, m})
 	return m
 }
 
+func (s *Sim) setWal(key string, m *walModel) {
+	s.mlock()
+	s.wals = append(s.wals, walEntry{key, m})
+	s.munlock()
+}
+
 func (s *Sim) ver(ctx interface{}) *verModel {
-	s.mmu.Lock()
-	defer s.mmu.Unlock()
-	m := s.verifs[ctx]
-	if m == nil {
-		m = &verModel{}
-		s.verifs[ctx] = m
+	s.mlock()
+	defer s.munlock()
+	for i := len(s.verifs) - 1; i >= 0; i-- {
+		if s.verifs[i].ctx == ctx {
+			return s.verifs[i].m
+		}
 	}
+	m := &verModel{}
+	s.verifs = append(s.verifs, verEntry{ctx, m})
 	return m
 }
 
 // Current returns the task of the calling goroutine (nil if unknown or dead).
 func (s *Sim) Current() *Task {
 	g := goid()
-	s.mu.Lock()
-	t := s.byGoid[g]
-	s.mu.Unlock()
+	s.lock()
+	t := s.lookup(g)
+	s.unlock()
 	if t == nil || t.dead {
 		return nil
 	}
@@ -250,9 +267,9 @@ func (s *Sim) Current() *Task {
 // Dead reports whether this generation has crashed / been torn down. Seams
 // must be inert when it returns true.
 func (s *Sim) Dead() bool {
-	s.mu.Lock()
+	s.lock()
 	d := s.dead
-	s.mu.Unlock()
+	s.unlock()
 	return d
 }
 
@@ -265,32 +282,33 @@ func (s *Sim) trace(format string, args ...interface{}) {
 // Go starts a harness task. It may be called before Wait or from a running
 // task. The new task does not run until the scheduler picks it.
 func (s *Sim) Go(name string, ctx interface{}, fn func()) *Task {
-	s.mu.Lock()
-	t := &Task{ID: len(s.All), Name: name, Harness: true, Ctx: ctx, wake: make(chan bool, 1)}
+	s.lock()
+	t := &Task{ID: len(s.All), Name: name, Harness: true, Ctx: ctx}
+	s.initTask(t)
 	s.All = append(s.All, t)
-	s.expectAdopt++
-	s.mu.Unlock()
+	s.spawned++
+	s.unlock()
 	go func() {
 		g := goid()
-		s.mu.Lock()
+		s.lock()
 		t.goid = g
-		s.byGoid[g] = t
+		s.regGoid(g, t)
 		t.state = stParked
 		t.point = "start"
-		s.mu.Unlock()
+		s.unlock()
 		defer func() {
 			if r := recover(); r != nil {
 				t.PanicVal = r
 				t.PanicStack = string(debug.Stack())
 			}
 			s.releaseMutexes(t)
-			s.mu.Lock()
+			s.lock()
 			t.state = stDone
-			s.mu.Unlock()
-			s.events <- event{evDone, t}
+			s.unlock()
+			s.post(event{evDone, t})
 		}()
-		s.events <- event{evAdopt, t}
-		if die := <-t.wake; die {
+		s.post(event{evAdopt, t})
+		if s.await(t) {
 			runtime.Goexit()
 		}
 		fn()
@@ -301,14 +319,14 @@ func (s *Sim) Go(name string, ctx interface{}, fn func()) *Task {
 // park is called by the running task: it records why it parks and waits to be
 // resumed. If the generation dies meanwhile the goroutine exits.
 func (s *Sim) park(t *Task, point string, ready func() bool, onResume func()) {
-	s.mu.Lock()
+	s.lock()
 	t.point = point
 	t.ready = ready
 	t.onResume = onResume
 	t.state = stParked
-	s.mu.Unlock()
-	s.events <- event{evPark, t}
-	if die := <-t.wake; die {
+	s.unlock()
+	s.post(event{evPark, t})
+	if s.await(t) {
 		if t.inUnlocked && s.OnUnsafeDie != nil {
 			s.OnUnsafeDie(t.unlockKey)
 		}
@@ -333,8 +351,8 @@ func (s *Sim) MaybeYield(point string) {
 	if t == nil {
 		return
 	}
-	s.mu.Lock()
-	slow := s.expectAdopt > 0
+	s.lock()
+	slow := s.spawned != s.adopted
 	if !slow {
 		for _, o := range s.All {
 			if o == t || o.state != stParked {
@@ -346,7 +364,7 @@ func (s *Sim) MaybeYield(point string) {
 			}
 		}
 	}
-	s.mu.Unlock()
+	s.unlock()
 	if !slow {
 		return
 	}
@@ -393,45 +411,45 @@ func (s *Sim) OpEnd() {
 }
 
 func (s *Sim) releaseMutexes(t *Task) {
-	s.mmu.Lock()
-	for _, m := range s.wals {
-		if m.holder == t {
-			m.holder = nil
+	s.mlock()
+	for _, e := range s.wals {
+		if e.m.holder == t {
+			e.m.holder = nil
 		}
 	}
-	s.mmu.Unlock()
+	s.munlock()
 }
 
 // ExpectSpawn tells the scheduler that the next library goroutine to appear
 // belongs to ctx (used for verifier goroutines, whose hooks carry no key).
 func (s *Sim) SetSpawnCtx(ctx interface{}) {
-	s.mu.Lock()
+	s.lock()
 	s.adoptCtx = ctx
-	s.mu.Unlock()
+	s.unlock()
 }
 
 // Crash is called by the running task: the whole generation dies here.
 func (s *Sim) Crash() {
-	s.mu.Lock()
+	s.lock()
 	s.dead = true
 	s.crashed = true
-	t := s.byGoid[goid()]
+	t := s.lookup(goid())
 	if t != nil {
 		t.dead = true
 	}
-	s.mu.Unlock()
-	s.events <- event{evCrash, t}
+	s.unlock()
+	s.post(event{evCrash, t})
 	runtime.Goexit()
 }
 
 func (s *Sim) hook(point, key string, ch <-chan struct{}) {
 	g := goid()
-	s.mu.Lock()
+	s.lock()
 	if s.dead {
-		s.mu.Unlock()
+		s.unlock()
 		return
 	}
-	t := s.byGoid[g]
+	t := s.lookup(g)
 	if t == nil {
 		// A goroutine started by the library: adopt it at its first hook.
 		if point == "rotate.idle" || point == "verifier.start" {
@@ -452,22 +470,24 @@ func (s *Sim) hook(point, key string, ch <-chan struct{}) {
 				if want == "rotator" {
 					t.walKey = key
 				}
-				s.byGoid[g] = t
+				s.regGoid(g, t)
 				t.state = stParked
-				s.mu.Unlock()
-				s.count(point)
+				s.unlock()
+				if !EdgeFree {
+					s.count(point)
+				}
 				s.adoptPark(t, point, key)
 				return
 			}
 		}
-		s.mu.Unlock()
+		s.unlock()
 		return
 	}
 	if t.dead {
-		s.mu.Unlock()
+		s.unlock()
 		return
 	}
-	s.mu.Unlock()
+	s.unlock()
 	s.count(point)
 	if s.OnHook != nil {
 		s.OnHook(t, point)
@@ -476,22 +496,25 @@ func (s *Sim) hook(point, key string, ch <-chan struct{}) {
 }
 
 func (s *Sim) count(point string) {
-	s.mmu.Lock()
+	if EdgeFree {
+		return
+	}
+	s.mlock()
 	s.Points[point]++
-	s.mmu.Unlock()
+	s.munlock()
 }
 
 // adoptPark registers the first park of an adopted library goroutine. The
 // adoptee is not the running task, so it announces itself with evAdopt.
 func (s *Sim) adoptPark(t *Task, point, key string) {
 	ready, onResume := s.blockFor(t, point, key)
-	s.mu.Lock()
+	s.lock()
 	t.point = point
 	t.ready = ready
 	t.onResume = onResume
-	s.mu.Unlock()
-	s.events <- event{evAdopt, t}
-	if die := <-t.wake; die {
+	s.unlock()
+	s.post(event{evAdopt, t})
+	if s.await(t) {
 		runtime.Goexit()
 	}
 	if point == "verifier.start" {
@@ -537,21 +560,20 @@ func (s *Sim) dispatch(t *Task, point, key string, ch <-chan struct{}) {
 	switch point {
 	// ---- pure notifications (no yield) ----
 	case "rotate.spawn", "verifier.spawn":
-		s.mu.Lock()
-		s.expectAdopt++
-		ph := &Task{ID: len(s.All), wake: make(chan bool, 1), placeholder: true, state: stRunning}
+		s.lock()
+		s.spawned++
+		ph := &Task{ID: len(s.All), placeholder: true, state: stRunning}
+		s.initTask(ph)
 		if point == "rotate.spawn" {
 			ph.Name = "rotator"
 			ph.wm = &walModel{}
-			s.mmu.Lock()
-			s.wals[key] = ph.wm
-			s.mmu.Unlock()
+			s.setWal(key, ph.wm)
 		} else {
 			ph.Name = "verifier"
 			ph.Ctx = s.adoptCtx
 		}
 		s.All = append(s.All, ph)
-		s.mu.Unlock()
+		s.unlock()
 		return
 	case "writeMu.unlocked":
 		m := s.walFor(t, key)
@@ -581,14 +603,14 @@ func (s *Sim) dispatch(t *Task, point, key string, ch <-chan struct{}) {
 		return
 	case "rotate.exit", "verifier.exit":
 		// The goroutine returns right after this hook and touches nothing else.
-		s.mu.Lock()
+		s.lock()
 		t.state = stDone
 		t.dead = true
 		if point == "rotate.exit" {
 			s.walFor(t, key).rotatorGone = true
 		}
-		s.mu.Unlock()
-		s.events <- event{evDone, t}
+		s.unlock()
+		s.post(event{evDone, t})
 		return
 	}
 	ready, onResume := s.blockFor(t, point, key)
@@ -626,21 +648,21 @@ type Result struct {
 // Wait runs the scheduler until every harness task is done, a crash, a
 // deadlock or the step budget. It must be called from a non-task goroutine.
 func (s *Sim) Wait() Result {
-	timer := time.NewTimer(time.Duration(s.WatchdogSecs) * time.Second)
-	defer timer.Stop()
 	for {
 		// wait for quiescence
 		for {
-			s.mu.Lock()
-			busy := s.running != nil || s.expectAdopt > 0
-			s.mu.Unlock()
+			s.lock()
+			busy := s.running != nil || s.spawned != s.adopted
+			s.unlock()
 			if !busy {
 				break
 			}
-			timer.Reset(time.Duration(s.WatchdogSecs) * time.Second)
-			select {
-			case ev := <-s.events:
-				s.mu.Lock()
+			ev, ok := s.next(time.Duration(s.WatchdogSecs) * time.Second)
+			if !ok {
+				s.watchdog()
+			}
+			{
+				s.lock()
 				switch ev.kind {
 				case evPark, evDone, evCrash:
 					if s.running == ev.t {
@@ -650,11 +672,9 @@ func (s *Sim) Wait() Result {
 						ev.t.doneSeen = true
 					}
 				case evAdopt:
-					s.expectAdopt--
+					s.adopted++
 				}
-				s.mu.Unlock()
-			case <-timer.C:
-				s.watchdog()
+				s.unlock()
 			}
 		}
 		if s.crashed {
@@ -732,40 +752,38 @@ func (s *Sim) Wait() Result {
 		if t.onResume != nil {
 			t.onResume()
 		}
-		s.mu.Lock()
+		s.lock()
 		t.state = stRunning
 		t.ready, t.onResume = nil, nil
 		s.running = t
 		s.last = t
-		s.mu.Unlock()
-		t.wake <- false
+		s.unlock()
+		s.resume(t, false)
 	}
 }
 
 // teardown kills every remaining task of this generation, one at a time.
 func (s *Sim) teardown() {
-	s.mu.Lock()
+	s.lock()
 	s.dead = true
 	tasks := append([]*Task(nil), s.All...)
-	s.mu.Unlock()
+	s.unlock()
 	waitDone := func(t *Task) {
-		deadline := time.After(time.Duration(s.WatchdogSecs) * time.Second)
 		for {
-			s.mu.Lock()
+			s.lock()
 			seen := t.doneSeen
-			s.mu.Unlock()
+			s.unlock()
 			if seen {
 				return
 			}
-			select {
-			case ev := <-s.events:
-				if ev.kind == evDone {
-					s.mu.Lock()
-					ev.t.doneSeen = true
-					s.mu.Unlock()
-				}
-			case <-deadline:
+			ev, ok := s.next(time.Duration(s.WatchdogSecs) * time.Second)
+			if !ok {
 				s.watchdog()
+			}
+			if ev.kind == evDone {
+				s.lock()
+				ev.t.doneSeen = true
+				s.unlock()
 			}
 		}
 	}
@@ -773,15 +791,15 @@ func (s *Sim) teardown() {
 		if t.placeholder {
 			continue
 		}
-		s.mu.Lock()
+		s.lock()
 		parked := t.state == stParked
 		if parked {
 			t.dead = true
 			t.state = stDone
 		}
-		s.mu.Unlock()
+		s.unlock()
 		if parked {
-			t.wake <- true
+			s.resume(t, true)
 		}
 		// every harness goroutine sends exactly one evDone from its wrapper;
 		// wait for it so that dying goroutines never overlap each other or the
@@ -821,9 +839,9 @@ func (s *Sim) watchdog() {
 	n := runtime.Stack(buf, true)
 	all := string(buf[:n])
 	stuck := ""
-	s.mu.Lock()
+	s.lock()
 	run := s.running
-	s.mu.Unlock()
+	s.unlock()
 	if run != nil {
 		hdr := fmt.Sprintf("goroutine %d [", run.goid)
 		if i := strings.Index(all, hdr); i >= 0 {
